@@ -281,15 +281,18 @@ fn assert_send<T: Send>(_val: T) {}
 #[allow(unused)]
 fn assert_make_future_send() {
     #[derive(Clone)]
-    struct IsSend(*mut ());
-    unsafe impl Send for IsSend {}
+    struct IsSendSync(*mut ());
+    unsafe impl Send for IsSendSync {}
+    unsafe impl Sync for IsSendSync {}
 
-    let (_sender, receiver): (_, Receiver<IsSend>) = broadcast::channel(1);
+    let (_sender, receiver): (_, Receiver<BroadcastMessage<IsSendSync>>) = broadcast::channel(1);
 
     assert_send(make_recv_future(receiver));
 }
-// SAFETY: make_future is Send if T is, as proven by assert_make_future_send.
-unsafe impl<T: Send> Send for ReusableBoxRecvFuture<T> {}
+// SAFETY: make_future is Send if `BroadcastMessage<T>` is. That needs `T: Send + Sync`
+// (not only `T: Send`), because the message holds `Vector<T>`s, which share their
+// contents with the `ObservableVector` through `Arc`s; see assert_make_future_send.
+unsafe impl<T: Send + Sync> Send for ReusableBoxRecvFuture<T> {}
 
 impl<T> fmt::Debug for ReusableBoxRecvFuture<T> {
     fn fmt(&self, f: &mut fmt::Formatter<'_>) -> fmt::Result {
